@@ -32,6 +32,7 @@ func runC04(c *Ctx, r *Report) {
 	c04StateShadow(c, r)
 	c04HandleOwnership(c, r)
 	c04DoneEndsLoop(c, r)
+	c04SubsliceIndex(c, r)
 }
 
 // ---- R04.2 -------------------------------------------------------------------
